@@ -83,6 +83,43 @@ theorem uncached_always_executes (env : Env) (ef : Node → St → Res × St) (n
     (hc : env.cached n.1 = false) : evalNode env ef n s = ef n s := by
   unfold evalNode; simp [hc]
 
+/-! ### The hypothesis `None is allowed everywhere` is needed: a known finding
+
+`CellsImpl.on_eval_formula` checks the `None` rule only when it stores a value, i.e. for cached
+cells; an uncached cells hands `None` to its caller unchecked.  So the flag DOES change a result
+when a cells returns `None` where `None` is not allowed (known finding
+C09-uncached-none-unchecked): cells 0 returns `None`, cells 1 returns `c0() ` or, when that fails
+with `NoneReturnedError`, 7.  With cells 0 cached the answer is 7, with cells 0 uncached it is
+`None` … and then cells 1 itself fails the rule. -/
+
+def nCells : CellId → Option Expr
+  | 0 => some .none
+  | 1 => some (.try_ (.call 0 []) .noneRet (.lit 7))
+  | _ => none
+
+def nEnv : Env where
+  formula := fun n => match nCells n.1 with
+    | some e => formulaOf (fun c => (nCells c).map (fun _ => 0)) e n.2
+    | none => .raise (.user kName)
+  cached := fun _ => true
+  allowNone := fun _ => false
+  refs := fun _ => .none
+  maxdepth := 10
+
+/-- **The full statement is false of the code**: with `None` not allowed, switching cells 0 to
+uncached changes what cells 1 returns – in the mechanism and in the specification alike. -/
+theorem flags_full_statement_fails :
+    ¬ ∀ (env : Env) (c : CellId → Bool) (n : Node),
+        (evalTop (withFlags env c) n {}).1 = (evalTop env n {}).1 := by
+  intro h
+  have := h nEnv (fun x => x != 0) (1, [])
+  revert this
+  decide
+
+example : (evalTop nEnv (1, []) {}).1 = .ok (.int 7) := by decide
+example : (evalTop (withFlags nEnv (fun x => x != 0)) (1, []) {}).1 =
+    .formulaError .noneRet [(1, [])] := by decide
+
 /-! Non-vacuity: the program of C08 with `None` allowed, evaluated under two assignments. -/
 example : (evalTop { C08.gEnv with allowNone := fun _ => true } (3, []) {}).1 =
     (evalTop (withFlags { C08.gEnv with allowNone := fun _ => true } (fun _ => true)) (3, []) {}).1 := by decide
